@@ -46,7 +46,7 @@ func reachableHostMutators(f *ssa.Function) map[string]bool {
 				if hostMutators[q] {
 					if q == "os.OpenFile" {
 						// read-only opens are not mutating
-						if fl, ok := constInt(ci.Arg(1)); ok && fl&3 == 0 && fl&0x40 == 0 && fl&0x200 == 0 {
+						if _, fl, ok := flagBits(ci.Arg(1), 0); ok && fl&3 == 0 && fl&0x40 == 0 && fl&0x200 == 0 {
 							continue
 						}
 					}
@@ -121,7 +121,7 @@ func rulesC02(c *Ctx) {
 		for top.Parent() != nil {
 			top = top.Parent()
 		}
-		if !strings.HasPrefix(top.Name(), "Copy") {
+		if !strings.HasPrefix(strings.ToLower(top.Name()), "copy") {
 			continue
 		}
 		var dest *ssa.Parameter
@@ -140,8 +140,21 @@ func rulesC02(c *Ctx) {
 			switch q {
 			case "os.Create", "os.MkdirAll", "os.Mkdir", mq(diskPkg, "", "MkdirAll"):
 				creating = 0
+			case "os.OpenFile":
+				if _, may, ok := flagBits(ci.Arg(1), 0); !ok || may&3 != 0 || may&0x40 != 0 || may&0x200 != 0 {
+					creating = 0
+				}
 			case mq(diskPkg, "", "CopyFile"), mq(diskPkg, "", "CopyDirectory"), "os.Link", "os.Symlink", "os.Rename":
 				creating = 1
+			default:
+				// a private worker of the copy family: its destination parameter
+				if ci.Static.Pkg == f.Pkg && ci.Static != top && strings.HasPrefix(strings.ToLower(ci.Static.Name()), "copy") {
+					for pi, pp := range ci.Static.Params {
+						if pp.Name() == "dest" || pp.Name() == "dst" {
+							creating = pi
+						}
+					}
+				}
 			}
 			if creating < 0 || dest == nil {
 				continue
@@ -283,7 +296,8 @@ func rulesC02(c *Ctx) {
 		for q := range got {
 			okq := false
 			for _, a := range al {
-				if a == q {
+				// os.Create is os.OpenFile(O_RDWR|O_CREATE|O_TRUNC): one effect, create-or-open for writing
+				if a == q || (a == "os.Create" && q == "os.OpenFile") || (a == "os.OpenFile" && q == "os.Create") {
 					okq = true
 				}
 			}
@@ -459,6 +473,7 @@ func ruleDiskCopyFileCloses(c *Ctx) {
 		c.Bad("R6", "disk.CopyFile", 0, "anchor not found")
 		return
 	}
+	cf = workerOf(cf)
 	find := func(g *ssa.Function) (create, cp *ssa.Call) {
 		for _, ci := range Calls(g) {
 			call, _ := ci.Instr.(*ssa.Call)
@@ -505,6 +520,19 @@ func ruleDiskCopyFileCloses(c *Ctx) {
 	}
 	create, cp := find(cf)
 	ok, why := false, "CopyFile does not create the destination and copy into it"
+	if create != nil && create.Call.StaticCallee().Name() == "OpenFile" {
+		// opened like os.Create: a write mode, O_CREATE and O_TRUNC on every path, never O_APPEND
+		must, may, okf := flagBits(create.Call.Args[1], 0)
+		trunc, _ := osConst(c.P, "O_TRUNC")
+		creat, _ := osConst(c.P, "O_CREATE")
+		wr, _ := osConst(c.P, "O_WRONLY")
+		rw, _ := osConst(c.P, "O_RDWR")
+		app, _ := osConst(c.P, "O_APPEND")
+		if !okf || must&trunc == 0 || must&creat == 0 || must&(wr|rw) == 0 || may&app != 0 {
+			c.Bad("R6", "disk.CopyFile closes and reports", create.Pos(), "the destination is not opened with a write mode, O_CREATE and O_TRUNC (and without O_APPEND) on every path — copying over a longer file leaves its old tail")
+			return
+		}
+	}
 	switch {
 	case create != nil && cp != nil:
 		ok, why = analyse(cf, firstOr(resultN(create, 0)), create, firstOr(resultN(create, 1)), cp)
